@@ -114,6 +114,9 @@ func (c *Cache) addArchetype(arch *archetype) {
 		if rf, ok := e.Filter.(*RelationFilter); ok {
 			if rf.Target == arch.RelationTarget {
 				e.Archetypes.Add(arch)
+				if e.Indices != nil {
+					e.Indices[arch] = int(e.Archetypes.Len() - 1)
+				}
 				// Not required: can't add after removing,
 				// as the target entity is dead.
 				// if e.Indices != nil { e.Indices[arch] = int(e.Archetypes.Len() - 1) }
